@@ -19,7 +19,104 @@ SOLVERS = [
 CVC5_PLAIN = ('cvc5', ['cvc5', '--strings-exp', '--dt-nested-rec', '--lang=smt2'], 'cvc5')
 
 
+_CONNECTIVES = None
+
+
+def _is_literal_atom(a):
+    global _CONNECTIVES
+    if _CONNECTIVES is None:
+        _CONNECTIVES = {z3.Z3_OP_AND, z3.Z3_OP_OR, z3.Z3_OP_NOT, z3.Z3_OP_IMPLIES, z3.Z3_OP_ITE, z3.Z3_OP_XOR,
+                        z3.Z3_OP_TRUE, z3.Z3_OP_FALSE}
+    if not z3.is_app(a) or z3.is_quantifier(a):
+        return False
+    if a.decl().kind() in _CONNECTIVES:
+        return False
+    if a.decl().kind() == z3.Z3_OP_EQ and z3.is_bool(a.arg(0)):
+        return False
+    return True
+
+
+def _is_value(t):
+    return z3.is_int_value(t) or z3.is_string_value(t) or z3.is_true(t) or z3.is_false(t)
+
+
+def unit_rewrite(pc, goal, rounds=5):
+    """Equivalence-preserving simplification of one query: every conjunct of the path condition that is a
+    literal (an atom or its negation) is kept as it is and used to rewrite the other conjuncts and the
+    goal (the atom becomes true/false there; a constructor test that holds makes the tests for the other
+    constructors false).  This removes the dynamic-type case distinctions that the path has already
+    decided."""
+    from . import values as vl
+    flat = []
+    for c in pc:
+        if z3.is_and(c):
+            flat.extend(c.children())
+        else:
+            flat.append(c)
+    pc = flat
+    for _ in range(rounds):
+        units = {}
+        for c in pc:
+            if z3.is_quantifier(c):
+                continue
+            a, v = (c.arg(0), False) if z3.is_not(c) else (c, True)
+            if not _is_literal_atom(a):
+                continue
+            units[a.get_id()] = (a, z3.BoolVal(v), c.get_id())
+            if v and a.decl().kind() == z3.Z3_OP_EQ:
+                # term == literal value: the term is that value elsewhere
+                l, r = a.arg(0), a.arg(1)
+                if _is_value(l) and not _is_value(r):
+                    l, r = r, l
+                if _is_value(r) and not _is_value(l) and not z3.is_const(l):
+                    units.setdefault(l.get_id(), (l, r, c.get_id()))
+            if v and a.decl().kind() == z3.Z3_OP_DT_IS:
+                t = a.arg(0)
+                dt = t.sort()
+                for k in range(dt.num_constructors()):
+                    o = dt.recognizer(k)(t)
+                    if o.get_id() != a.get_id():
+                        units.setdefault(o.get_id(), (o, z3.BoolVal(False), c.get_id()))
+        if not units:
+            break
+        changed = False
+        out = []
+        seen = set()
+        for c in pc:
+            # a literal is rewritten only by facts that come from other conjuncts: what is replaced inside
+            # it is then a proper subterm of its atom, so no two conjuncts can rewrite each other away
+            subs = [(a, b) for a, b, origin in units.values() if origin != c.get_id()]
+            c2 = z3.substitute(c, *subs) if subs else c
+            if c2.get_id() != c.get_id():
+                c2 = vl.simp(c2)
+                changed = True
+            if z3.is_true(c2) or c2.get_id() in seen:
+                continue
+            seen.add(c2.get_id())
+            if z3.is_and(c2):
+                for d in c2.children():
+                    if d.get_id() not in seen:
+                        seen.add(d.get_id())
+                        out.append(d)
+            else:
+                out.append(c2)
+        subs = [(a, b) for a, b, _ in units.values()]
+        g2 = z3.substitute(goal, *subs)
+        if g2.get_id() != goal.get_id():
+            g2 = vl.simp(g2)
+            changed = True
+        pc, goal = out, g2
+        if not changed:
+            break
+    return pc, goal
+
+
 def smt2_of(pc, goal):
+    if not os.environ.get('PYVC_NO_UNIT_REWRITE'):
+        try:
+            pc, goal = unit_rewrite(list(pc), goal)
+        except z3.Z3Exception:
+            pass
     s = z3.Solver()
     s.add(*pc)
     s.add(z3.Not(goal))
@@ -50,6 +147,11 @@ def race(text, timeout_s, confirm=False, tmpdir=None):
         _AVAIL = available()
     d = tempfile.mkdtemp(prefix='pyvc-', dir=tmpdir)
     procs = []
+    base_cmd = {}
+    # z3 5.1 sometimes crashes (SIGSEGV) in its preprocessing on large string/sequence VCs; the same
+    # query is then retried with that preprocessing configured differently
+    ALT = ['smt.solve_eqs=false', 'smt.auto_config=false']
+    crashed = {}
     t0 = time.time()
     try:
         uses_lambda = '(lambda ' in text
@@ -67,6 +169,8 @@ def race(text, timeout_s, confirm=False, tmpdir=None):
                 # the assertions (seen on string VCs); with validation that becomes an error = unknown
                 c = cmd + ['-T:%d' % max(1, int(timeout_s)), 'model_validate=true', p]
             procs.append((name, subprocess.Popen(c, stdout=subprocess.PIPE, stderr=subprocess.PIPE, text=True)))
+            if fam != 'cvc5':
+                base_cmd[name] = c
         answers = {}
         pending = dict(procs)
         deadline = t0 + timeout_s + 2
@@ -76,6 +180,21 @@ def race(text, timeout_s, confirm=False, tmpdir=None):
                 if rc is None:
                     continue
                 out = p.stdout.read().strip()
+                root = name.split('~')[0]
+                if (rc < 0 or rc == 139) and root in base_cmd and crashed.get(root, 0) < len(ALT) \
+                        and time.time() - t0 < timeout_s - 1:
+                    alt = ALT[crashed.get(root, 0)]
+                    crashed[root] = crashed.get(root, 0) + 1
+                    left = max(1, int(timeout_s - (time.time() - t0)))
+                    c2 = [x for x in base_cmd[root] if not x.startswith('-T:')]
+                    c2 = c2[:-1] + ['-T:%d' % left, alt, c2[-1]]
+                    np_ = subprocess.Popen(c2, stdout=subprocess.PIPE, stderr=subprocess.PIPE, text=True)
+                    nname = '%s~%s' % (root, alt.split('.')[-1].split('=')[0])
+                    procs.append((nname, np_))
+                    pending[nname] = np_
+                    answers[name] = ('crash', time.time() - t0, 'signal')
+                    del pending[name]
+                    continue
                 first = out.split('\n')[0].strip() if out else ''
                 if 'invalid model' in out:
                     first = 'unknown'     # z3 produced a model that fails its own validation
